@@ -506,6 +506,13 @@ func runC04Sequence(c *vlib.Ctx, a *Arc, g *c04gen, seqLen int, seqID int) (aliv
 			if a.WaitExit(3*time.Second) || !a.Running() {
 				break
 			}
+			if strings.Contains(err.Error(), "Client.Timeout") || strings.Contains(err.Error(), "deadline exceeded") {
+				// the 60 s client watchdog fired while the server process kept running: a
+				// wall-clock limit on a loaded machine, not an observation about the payload
+				c.Count("requests_timed_out_server_still_running", 1)
+				c.Inconclusive("request timed out after the client watchdog while the server kept running: " + q.Class)
+				continue
+			}
 			c.Violation("request got no HTTP response: "+q.Class, map[string]any{"desc": q.Desc, "err": err.Error(), "seq": seqID})
 		} else if code >= 200 && code < 300 {
 			c.Count("accepted", 1)
